@@ -215,13 +215,28 @@ def make_base(spec, mixins=()):
             for k, (lo, hi) in b.items():
                 if "#" not in k:
                     d[k] = (conv_bound(lo, Timeseries), conv_bound(hi, Timeseries))
+            def vec(src, comps):
+                lo = np.array([fl(src[c][0]) if c in src and src[c][0] is not None else -np.inf for c in comps])
+                hi = np.array([fl(src[c][1]) if c in src and src[c][1] is not None else np.inf for c in comps])
+                return lo, hi
             for base, sym in self._vec.items():
                 comps = ["%s#%d" % (base, i) for i in range(sym.shape[0])]
                 if any(c in b for c in comps):
-                    # per-component vector bounds
-                    lo = np.array([fl(b[c][0]) if c in b and b[c][0] is not None else -np.inf for c in comps])
-                    hi = np.array([fl(b[c][1]) if c in b and b[c][1] is not None else np.inf for c in comps])
-                    d[base] = (lo, hi)
+                    d[base] = vec(b, comps)         # per-component vector bounds
+            # a second source, combined the way users do it: merge_bounds
+            b2 = self._spec.get("bounds2", {})
+            for k, (lo, hi) in b2.items():
+                if "#" in k:
+                    continue
+                other = (-np.inf if lo is None else fl(lo), np.inf if hi is None else fl(hi))
+                mine = d[k] if k in d else (-np.inf, np.inf)
+                mine = tuple((-np.inf if i == 0 else np.inf) if x is None else x for i, x in enumerate(mine))
+                d[k] = self.merge_bounds(mine, other)
+            for base, sym in self._vec.items():
+                comps = ["%s#%d" % (base, i) for i in range(sym.shape[0])]
+                if any(c in b2 for c in comps):
+                    mine = d[base] if base in d else (np.full(len(comps), -np.inf), np.full(len(comps), np.inf))
+                    d[base] = self.merge_bounds(mine, vec(b2, comps))
             return d
 
         @property
